@@ -206,19 +206,19 @@ def run(F, ck, tier):
     if a is None or len(b) != 1:
         ck.ob('R13.5', 'anchor', False, 'ANCHOR-MISSING hash_n_to_m_no_pad (native / circuit)')
     else:
-        def classify(n):
+        def classify(n, fn=None):
             nm = parse_path(callee(n) or '')[1] or n.get('n')
             if n.get('k') == 'MCall' and nm in ('chunks', 'chunks_exact'):
-                return '%s(%s)' % (nm, _last_seg(n['a'][0]) if n.get('a') else '?')
+                return '%s(%s)' % (nm, _last_seg(n['a'][0], fn) if n.get('a') else '?')
             if n.get('k') == 'MCall' and nm in ('set_from_slice', 'set_from_iter', 'set_elt'):
-                return '%s@%s' % (nm, _last_seg(n['a'][-1]))
+                return '%s@%s' % (nm, _last_seg(n['a'][-1], fn))
             if nm and nm.startswith('permute'):
                 return 'permute'
             if n.get('k') == 'MCall' and nm in ('squeeze', 'push'):
                 return nm
             return None
-        sa = skeleton.render(skeleton.tree(a.body, classify))
-        sb = skeleton.render(skeleton.tree(b[0].body, classify))
+        sa = skeleton.render(skeleton.tree(a.body, lambda n: classify(n, a)))
+        sb = skeleton.render(skeleton.tree(b[0].body, lambda n: classify(n, b[0])))
         ck.ob('R13.5', 'hash-skeleton:native~circuit', sa == sb, 'both: %s' % sa if sa == sb else
               'native hash_n_to_m_no_pad performs [%s] but the in-circuit one performs [%s]: the circuit computes a different hash than the native code' % (sa, sb), '%s:%d' % (b[0].file, b[0].line))
     ck.decided += ['sponge discipline: overwrite at 0 in RATE chunks, permutation per chunk, outputs from the rate part, native/circuit hash skeleton agreement, compression layout, container rate/capacity']
